@@ -9,10 +9,12 @@ import (
 	"os"
 	"path/filepath"
 	"sort"
+	"sync"
 	"time"
 
 	"github.com/gofrs/uuid"
 
+	"github.com/Flowpack/prunner/definition"
 	"github.com/Flowpack/prunner/store"
 	"github.com/Flowpack/prunner/taskctl"
 
@@ -413,5 +415,80 @@ func RunRetentionCase(seed int64, workDir string) *HistResult {
 	if len(res.Findings) > 0 {
 		res.Sample = map[string]any{"seed": seed, "loadedJobs": len(data.Jobs), "rounds": rounds}
 	}
+	return res
+}
+
+// RunConcurrentSavesCase (C12, "after every save the set of jobs reported by the API equals the set in the store"): several
+// SaveToStore calls are issued at the same time against a store whose Save takes a millisecond or is held by the harness,
+// with nothing else going on (all jobs finished; retention_count makes the save remove some of them). Whenever one of the
+// calls returns, the store - the last snapshot it has COMPLETED - holds exactly the jobs the API reports. (A call that
+// returns because "another save is queued anyway" leaves the store behind the API at that instant: own mutant after C11-m.)
+func RunConcurrentSavesCase(seed int64) *HistResult {
+	res := &HistResult{Seed: seed, Situations: map[string]map[string]struct{}{}, Evaluations: map[string]int{}}
+	find := func(sig, format string, args ...any) {
+		res.Findings = append(res.Findings, Finding{Props: []string{"C12", "C10"}, Sig: sig, Detail: fmt.Sprintf(format, args...), Step: -1})
+	}
+	r := rand.New(rand.NewSource(seed))
+	keep := 1 + r.Intn(2)
+	def := definition.PipelineDef{Concurrency: 4, RetentionCount: keep, SourcePath: "gen", Tasks: map[string]definition.TaskDef{"t": {Script: []string{"true"}}}}
+	st := &core.RecStore{Delay: time.Duration(500+r.Intn(1500)) * time.Microsecond}
+	sys, err := core.NewSys(&definition.PipelinesDef{Pipelines: map[string]definition.PipelineDef{"p": def}}, st, core.NewMemOutputStore())
+	if err != nil {
+		res.Inconclusive = err.Error()
+		return res
+	}
+	defer sys.Close()
+	defer DrainAll(sys)
+	savers := 2 + r.Intn(4)
+	rounds := 2 + r.Intn(3)
+	for round := 0; round < rounds; round++ {
+		n := keep + 1 + r.Intn(3)
+		for i := 0; i < n; i++ {
+			if _, cls := sys.Schedule(0, "p", nil, "u"); cls != "ok" {
+				res.Inconclusive = "schedule: " + cls
+				return res
+			}
+			DrainAll(sys)
+		}
+		if _, err := sys.Quiesce(core.QuiesceOpts{Watchdog: 20 * time.Second}); err != nil {
+			res.Inconclusive = err.Error()
+			return res
+		}
+		// (the persist loop may be saving too: it is one more saver; nothing changes the jobs from here on except saves)
+		var wg sync.WaitGroup
+		var mu sync.Mutex
+		for s := 0; s < savers; s++ {
+			wg.Add(1)
+			go func(s int) {
+				defer wg.Done()
+				time.Sleep(time.Duration(s*150) * time.Microsecond)
+				sys.Save(10 + s)
+				// this save has returned: what the store has completed by now is what the API reports now (no save that
+				// is still running can change the set: the first save of the round removed what there was to remove)
+				v := sys.Snapshot(-1)
+				saves := st.Saves()
+				mu.Lock()
+				defer mu.Unlock()
+				res.Evaluations["C12"]++
+				if len(saves) == 0 {
+					find("C12:store-differs-from-api", "round %d: SaveToStore call %d of %d concurrent ones has returned and the store has not completed any save", round, s, savers)
+					return
+				}
+				last := saves[len(saves)-1]
+				same := len(last.Jobs) == len(v.Jobs)
+				for i := range v.Jobs {
+					if _, ok := last.Jobs[v.Jobs[i].ID]; !ok {
+						same = false
+					}
+				}
+				if !same {
+					find("C12:store-differs-from-api", "round %d: SaveToStore call %d of %d concurrent ones has returned; the last snapshot the store has completed holds %d jobs, the API reports %d (retention_count %d)", round, s, savers, len(last.Jobs), len(v.Jobs), keep)
+				}
+			}(s)
+		}
+		wg.Wait()
+	}
+	res.sit("C12", fmt.Sprintf("%d concurrent SaveToStore calls on a slow store, retention_count %d", savers, keep))
+	res.Events = sys.Log.Len()
 	return res
 }
